@@ -15,25 +15,27 @@ import (
 
 // CheckConfig is the configuration of one harness exploration.
 type CheckConfig struct {
-	Property            string           `json:"property"`
-	Harness             string           `json:"harness"`   // function name
-	Pkg                 string           `json:"pkg"`       // import path of the package holding the harness
-	HashMode            string           `json:"hash_mode"` // token | uf
-	Preemptions         int              `json:"preemptions"`
-	ConcretizeLimit     int              `json:"concretize_limit"`
-	MaxAllocBytes       int64            `json:"max_alloc_bytes"`
-	StepLimit           int64            `json:"step_limit"`
-	SolverTimeoutMs     int              `json:"solver_timeout_ms"`
-	Solver              string           `json:"solver"`
-	MaxPaths            int              `json:"max_paths"`
-	SampleCount         int              `json:"sample_count"`
-	ShufflePermutations bool             `json:"shuffle_permutations"`
-	BudgetS             int              `json:"budget_s"`
-	MustReach           []string         `json:"must_reach"`
-	Params              map[string]int64 `json:"params"`            // harness parameters (read via verifParam)
-	VirtualHorizonS     int              `json:"virtual_horizon_s"` // stall detection horizon (virtual seconds)
-	AllocEnumerate      int              `json:"alloc_enumerate"`   // symbolic allocation sizes up to this are enumerated
-	Note                string           `json:"note"`
+	Property             string           `json:"property"`
+	Harness              string           `json:"harness"`   // function name
+	Pkg                  string           `json:"pkg"`       // import path of the package holding the harness
+	HashMode             string           `json:"hash_mode"` // token | uf
+	Preemptions          int              `json:"preemptions"`
+	ConcretizeLimit      int              `json:"concretize_limit"`
+	MaxAllocBytes        int64            `json:"max_alloc_bytes"`
+	StepLimit            int64            `json:"step_limit"`
+	SolverTimeoutMs      int              `json:"solver_timeout_ms"`
+	Solver               string           `json:"solver"`
+	MaxPaths             int              `json:"max_paths"`
+	SampleCount          int              `json:"sample_count"`
+	ShufflePermutations  bool             `json:"shuffle_permutations"`
+	BudgetS              int              `json:"budget_s"`
+	MustReach            []string         `json:"must_reach"`
+	Params               map[string]int64 `json:"params"`                 // harness parameters (read via verifParam)
+	SkipNativeValidation string           `json:"skip_native_validation"` // reason; passing samples are not re-run natively
+	NativeTimeoutIsStall bool             `json:"native_timeout_is_stall"`
+	VirtualHorizonS      int              `json:"virtual_horizon_s"` // stall detection horizon (virtual seconds)
+	AllocEnumerate       int              `json:"alloc_enumerate"`   // symbolic allocation sizes up to this are enumerated
+	Note                 string           `json:"note"`
 
 	queryLog io.Writer
 }
